@@ -46,6 +46,17 @@ def reproduces(f):
             setup = smrun.objective_setup(r, {}, script)
             return c14.optimum(A, *setup)
         return opt(f["script"]) == e["value"] and opt(f["script2"]) == e["value2"]
+    if e["kind"] == "permute_pair":
+        # two declaration orders of one problem: some schedule admitted for the first (task times, flags, selections)
+        # is rejected for the second
+        from harness import c14
+        ra, _ = c14.build(f["script"])
+        rb, _ = c14.build(f["script2"])
+        A, B, v = c14.both_assertions(ra, rb)
+        if v or A is None:
+            return False
+        v = c14.compare_builds(ra, A, rb, B, {}, False, f["script"], k=e.get("k", 8))
+        return isinstance(v, dict) and "admitted" in v.get("what", "")
     if e["kind"] == "order_pair":
         def verdict(script):
             r = pslib.Real()
